@@ -1,15 +1,18 @@
-import PEval.Lemmas.DatasetTotal
+import PEval.Lemmas.DatasetHistory
+import PEval.Lemmas.Dataset2D
 /-!
 A concrete, non-trivial table set used by the non-vacuity `example`s of `PEval.Properties.C16`:
 two samples 0.5 s apart, LIDAR_TOP calibrated at the ego origin plus a camera elsewhere, ego poses
 rotated by the unit quaternions (3,0,0,4)/5 and (1,2,2,4)/5, a bus present in both samples (so the
 second annotation has a history) and a pedestrian of an unregistered category in the first only.
+`exTables2D` adds a second camera, traffic-light categories, four instances sharing two regulatory
+element ids and five 2-D annotations (one on a sweep image that no sample exposes).
 -/
 namespace PEval.Dataset
 open PEval
 
 def exTables : Tables where
-  samples := [⟨"s0", 1600000000000000⟩, ⟨"s1", 1600000000500000⟩]
+  samples := [⟨"s0", 1600000000000000, 1600000000⟩, ⟨"s1", 1600000000500000, 3200000001 / 2⟩]
   sensors := [⟨"senT", "LIDAR_TOP"⟩, ⟨"senF", "CAM_FRONT"⟩]
   calibratedSensors := [⟨"csT", "senT", Vec3.zero, Quat.one⟩, ⟨"csF", "senF", ⟨3/2, 0, 3/2⟩, ⟨1/2, -1/2, 1/2, -1/2⟩⟩]
   egoPoses := [⟨"e0", ⟨100, -50, 1/2⟩, ⟨3/5, 0, 0, 4/5⟩⟩, ⟨"e1", ⟨105, -49, 1/2⟩, ⟨1/5, 2/5, 2/5, 4/5⟩⟩,
@@ -19,20 +22,36 @@ def exTables : Tables where
   categories := [⟨"c0", "Vehicle.Bus"⟩, ⟨"c1", "human.pedestrian.adult"⟩]
   attributes := [⟨"at0", "vehicle.moving"⟩]
   visibility := [⟨"none", "v80-100"⟩, ⟨"3", "most"⟩]
-  instances := [⟨"i0", "c0"⟩, ⟨"i1", "c1"⟩]
+  instances := [⟨"i0", "c0", ""⟩, ⟨"i1", "c1", ""⟩]
   annotations := [
-    ⟨"a0", "s1", "i0", "none", ["at0"], ⟨120, -40, 1⟩, ⟨5/2, 10, 3⟩, ⟨4/5, 0, 0, 3/5⟩, "a2", 0⟩,
-    ⟨"a1", "s0", "i1", "3", [], ⟨90, -60, 3/4⟩, ⟨1/2, 3/4, 7/4⟩, ⟨0, 0, 0, -1⟩, "", 12⟩,
-    ⟨"a2", "s0", "i0", "3", [], ⟨118, -41, 1⟩, ⟨5/2, 10, 3⟩, ⟨4/5, 0, 0, 3/5⟩, "", 300⟩]
+    ⟨"a0", "s1", "i0", "none", ["at0"], ⟨120, -40, 1⟩, ⟨5/2, 10, 3⟩, ⟨4/5, 0, 0, 3/5⟩, "a2", "", 0⟩,
+    ⟨"a1", "s0", "i1", "3", [], ⟨90, -60, 3/4⟩, ⟨1/2, 3/4, 7/4⟩, ⟨0, 0, 0, -1⟩, "", "", 12⟩,
+    ⟨"a2", "s0", "i0", "3", [], ⟨118, -41, 1⟩, ⟨5/2, 10, 3⟩, ⟨4/5, 0, 0, 3/5⟩, "", "a0", 300⟩]
 
-def exS1 : Sample := ⟨"s1", 1600000000500000⟩
+def exTables2D : Tables :=
+  { exTables with
+    sensors := [⟨"senT", "LIDAR_TOP"⟩, ⟨"senF", "CAM_FRONT"⟩, ⟨"senN", "CAM_TRAFFIC_LIGHT_NEAR"⟩],
+    calibratedSensors := exTables.calibratedSensors ++ [⟨"csN", "senN", ⟨1, 0, 2⟩, Quat.one⟩],
+    sampleData := exTables.sampleData ++ [⟨"sd4", "s0", "e1", "csN", true⟩, ⟨"sd5", "s0", "e0", "csN", false⟩],
+    categories := exTables.categories ++ [⟨"c2", "green"⟩, ⟨"c3", "UNKNOWN"⟩, ⟨"c4", "red_left"⟩],
+    instances := exTables.instances ++ [⟨"j0", "c2", "scene::traffic_light:123"⟩, ⟨"j1", "c3", "x::traffic_light:123"⟩,
+      ⟨"j2", "c4", "77"⟩, ⟨"j3", "c4", "a:77"⟩],
+    objectAnns := [
+      ⟨"o0", "sd3", "j0", "c2", ["at0"], 21 / 2, 20, 1109 / 10, -7 / 2⟩,
+      ⟨"o1", "sd4", "j1", "c3", [], 0, 0, 5, 5⟩,
+      ⟨"o2", "sd5", "j2", "c4", [], 0, 0, 9, 9⟩,
+      ⟨"o3", "sd4", "j2", "c4", [], 1, 2, 3, 4⟩,
+      ⟨"o4", "sd3", "j3", "c4", [], 1, 1, 2, 2⟩] }
+
+def exS0 : Sample := ⟨"s0", 1600000000000000, 1600000000⟩
+def exS1 : Sample := ⟨"s1", 1600000000500000, 3200000001 / 2⟩
 def exSd1 : SampleData := ⟨"sd1", "s1", "e1", "csT", true⟩
 def exEgo1 : EgoPose := ⟨"e1", ⟨105, -49, 1/2⟩, ⟨1/5, 2/5, 2/5, 4/5⟩⟩
 def exCsT : CalibratedSensor := ⟨"csT", "senT", Vec3.zero, Quat.one⟩
 def exA0 : Annotation :=
-  ⟨"a0", "s1", "i0", "none", ["at0"], ⟨120, -40, 1⟩, ⟨5/2, 10, 3⟩, ⟨4/5, 0, 0, 3/5⟩, "a2", 0⟩
+  ⟨"a0", "s1", "i0", "none", ["at0"], ⟨120, -40, 1⟩, ⟨5/2, 10, 3⟩, ⟨4/5, 0, 0, 3/5⟩, "a2", "", 0⟩
 def exA2 : Annotation :=
-  ⟨"a2", "s0", "i0", "3", [], ⟨118, -41, 1⟩, ⟨5/2, 10, 3⟩, ⟨4/5, 0, 0, 3/5⟩, "", 300⟩
+  ⟨"a2", "s0", "i0", "3", [], ⟨118, -41, 1⟩, ⟨5/2, 10, 3⟩, ⟨4/5, 0, 0, 3/5⟩, "", "a0", 300⟩
 
 /-- `∀ a ∈ l, ∃ b, f a = ok b` from a decidable check -/
 theorem all_ok {α β} {f : α → Except Err β} {l : List α}
@@ -67,5 +86,34 @@ theorem exTables_wellFormed : WellFormed exTables where
     cases hl : lookup Annotation.token exTables.annotations a.prev with
     | ok b => exact ⟨b, rfl⟩
     | error e => simp [hl, Except.toBool, hne] at this
+  ann_next := by
+    intro a ha hne
+    have h : exTables.annotations.all (fun a =>
+        a.next == "" || (lookup Annotation.token exTables.annotations a.next).toBool) = true := by
+      decide +kernel
+    have := List.all_eq_true.1 h a ha
+    cases hl : lookup Annotation.token exTables.annotations a.next with
+    | ok b => exact ⟨b, rfl⟩
+    | error e => simp [hl, Except.toBool, hne] at this
+  sensors := ⟨["LIDAR_TOP", "CAM_FRONT"], by decide +kernel⟩
+
+theorem exTables2D_wellFormed : WellFormed2D exTables2D where
+  samples_ne := by decide
+  ego := all_ok (by decide +kernel)
+  sensors := ⟨["LIDAR_TOP", "CAM_FRONT", "CAM_TRAFFIC_LIGHT_NEAR"], by decide +kernel⟩
+  oann_category := all_ok (by decide +kernel)
+  oann_attributes := by
+    intro o ho
+    exact all_ok (f := fun t => lookup Named.token exTables2D.attributes t)
+      (List.all_eq_true.1 (by decide +kernel :
+        exTables2D.objectAnns.all (fun o => o.attributeTokens.all
+          (fun t => (lookup Named.token exTables2D.attributes t).toBool)) = true) o ho)
+  oann_instance := by
+    intro o ho
+    have h : exTables2D.objectAnns.all (fun o => exTables2D.instances.any (fun i => i.token == o.instanceToken)) = true := by
+      decide +kernel
+    have := List.all_eq_true.1 h o ho
+    obtain ⟨i, hi, hit⟩ := List.any_eq_true.1 this
+    exact ⟨i, hi, by simpa using hit⟩
 
 end PEval.Dataset
